@@ -4,6 +4,10 @@ import json, glob, re, os, sys
 sys.path.insert(0, "/verif")
 from tools_seed_summaries import summary
 strengthened = {
+ "C01-13": "missed at first: long streamed documents held no NUL; gen.LongDoc now places single NULs, short runs and runs of thousands of NULs at drawn offsets, and C01 has the check stream_documents (17-90 KB, greedy reads, fixed chunks around 8 KiB, G5 schedules)",
+ "C19-13": "missed at first: concurrent parses only saw small inputs; every batch now also holds three large documents (hundreds of root blocks) that are parsed at once, so anything the library does only above a size is reached concurrently",
+ "C10-13": "missed at first: no code line began with a tab of which only part is indentation under an indented fence or inside a container; such fragments added to the generators",
+ "C06-13": "missed at first by C06 (caught by C15 and C10): the model's destinations came from a fixed pool; they are now also composed from units (safe runs, characters to encode, complete / truncated / malformed percent escapes) so that every kind of piece follows every other",
  "C05-1": "missed at first: generators never nested link-in-image-in-link; fragments for nested bracket shapes added (G2/G3)",
  "C10-1": "missed at first: no upper-case tag names of equal length were generated and C10 accepted either spelling of a '<' inside raw HTML under a filter; shared HTML soup generator with upper-case names added and C10 now predicts the filtered bytes exactly (FilterRawRef)",
  "C12-2": "missed at first: every definition was its own root block; definitions at different depths of one root block added",
